@@ -1,7 +1,6 @@
 package c15
 
 import (
-	"bytes"
 	"errors"
 	"fmt"
 	"io"
@@ -209,8 +208,7 @@ func faultSequences(c *run.Ctx) (res run.Result) {
 			level := gzLevels[r.Intn(len(gzLevels))]
 			data := s.Gzip(level)
 			if o.fault == "" {
-				c.SaveInput(data)
-				checkSPZ(c, &res, s, bytes.NewReader(data), len(data), level, faultCtx)
+				checkSPZ(c, &res, s, data, level, faultCtx)
 				break
 			}
 			// The gzip layer reads ahead of what spz.Read consumes, so a fault in the last few
@@ -218,7 +216,7 @@ func faultSequences(c *run.Ctx) (res run.Result) {
 			// without error must be the complete exact cloud.
 			fr := &faultReader{data: data, limit: r.Intn(len(data))}
 			reported := false
-			if checkSPZFrom(c, &res, s, fr, len(data), level, " (failing source)", &reported) {
+			if checkSPZFrom(c, &res, s, fr, "failing reader", len(data), level, " (failing source)", &reported) {
 				if reported {
 					res.Count("faults/reported_as_error", 1)
 				} else {
@@ -267,7 +265,11 @@ func checkSplatRead(c *run.Ctx, res *run.Result, ss []splatref.Splat, data []byt
 	c.SaveInput(data)
 	var back modeling.Mesh
 	var err error
-	if p := run.Try(func() { back, err = splat.Read(bytes.NewReader(data)) }); p != nil {
+	rd, kind, release := openKind(c, res, "splat.Read", site, data)
+	p := run.Try(func() { back, err = splat.Read(rd) })
+	release()
+	input += ", file read through " + kind
+	if p != nil {
 		res.Violate("panic", site, input, p.Value+"\n"+p.Stack, nil)
 		return
 	}
